@@ -25,6 +25,9 @@ MC_Fns == {"exp"}
 MC_SOps == {"*", "-"}
 MC_VOps == {"*", "-"}
 MC_Senses == {"<=", ">=", "=="}
+MC_Stages == <<>>
+MC_FinalEn == {}
 MC_Want == {}
+MC_NoPR(o) == <<>>
 ASSUME PrintT(<<"BASE", BaseCalls, BaseHeap, AllNames>>)
 =============================================================================
